@@ -151,7 +151,7 @@ func init() {
 		Real: "real: all of kvql from /repo's working tree; simulated: storage engine with read trace, caller",
 		NCases: func(tier string) int {
 			if tier == "thorough" {
-				return len(c18Enum()) * 60
+				return len(c18Enum()) * 150
 			}
 			return 90000
 		},
@@ -162,7 +162,7 @@ func init() {
 		Finish: func(st *Stats, cov map[string]any, tier string) string {
 			if tier == "thorough" {
 				cov["shape_literal_combinations_enumerated"] = len(c18Enum())
-				cov["explanation_exhaustive"] = "all single atoms over all 40 literals (the empty string included; second literal of between/in over all 40 as well for single atoms), all ordered pairs of atoms over the 13 literals of length <= 2; each with 60 (store, batch, mode, opaque-position) draws"
+				cov["explanation_exhaustive"] = "all single atoms over all 40 literals (the empty string included; second literal of between/in over all 40 as well for single atoms), all ordered pairs of atoms over the 13 literals of length <= 2; each with 150 (store, batch, mode, opaque-position) draws"
 			}
 			return ""
 		},
@@ -287,7 +287,7 @@ func genC18(seed uint64, i int, tier string) *Scenario {
 	var pc PinCase
 	if tier == "thorough" {
 		e := c18Enum()
-		pc = e[(i/60)%len(e)]
+		pc = e[(i/150)%len(e)]
 	} else {
 		lits := c18Lits(3)
 		lits = append(lits, "", "", "") // the empty string is a legal key and literal
